@@ -104,7 +104,7 @@ def _job(args):
     # one case needs well under a second of real time; a server that stops yielding must not stall the check
     os.environ.setdefault("VERIF_WALL_LIMIT", "25")
     try:
-        return simnet.run(_case, *args)
+        return simnet.run(_case, *args[:3], task_salt=(args[3] if len(args) > 3 else 0))
     except simnet.WallClockExceeded as e:
         return "SERVER-STARVED-THE-LOOP %s" % e
     except BaseException as e:  # noqa
@@ -144,10 +144,13 @@ def run(ctx, compare=True):
     for fam, data in inputs:
         jobs.append((data, rng.random() < 0.5, rng.choice(["close", "vanish"])))
     # orderly and garbage endings cut off by a reset before the answer is out (every offset of a few loop turns)
-    for tail in (b"QUIT\r\n", b"PWD\r\nQUIT\r\n", b"\xff\r\n", b"NOOP\r\n", b"EPSV\r\nQUIT\r\n"):
+    # ... under several iteration orders of the server's task sets (`done`, `pending`): which of two tasks finished in
+    # the same loop turn is looked at first is a scheduling choice the outcome must not depend on
+    for tail in (b"QUIT\r\n", b"PWD\r\nQUIT\r\n", b"\xff\r\n", b"NOOP\r\n", b"EPSV\r\nQUIT\r\n", b"PASV\r\nFOO\r\nQUIT\r\n", b"EPSV\r\nEPSV\r\n\xff\r\n"):
         for k in range(0, 10):
-            inputs.append(("cut-before-reply", tail))
-            jobs.append((tail, True, "vanish-now:%d" % k))
+            for salt in range(ctx.pick(8, 16)):
+                inputs.append(("cut-before-reply", tail))
+                jobs.append((tail, True, "vanish-now:%d" % k, salt))
     mp = multiprocessing.get_context("fork")
     with mp.Pool(min(16, os.cpu_count() or 4)) as pool:
         outs = pool.map(_job, jobs, chunksize=8)
@@ -155,7 +158,7 @@ def run(ctx, compare=True):
     for (fam, data), job, o in zip(inputs, jobs, outs):
         res.cases += 1
         res.count("server_garbage_" + fam)
-        inp = {"kind": "control-bytes", "bytes": data[:200].hex() + ("..(%d bytes)" % len(data) if len(data) > 200 else ""), "full_len": len(data), "login_first": job[1], "end": job[2]}
+        inp = {"kind": "control-bytes", "bytes": data[:200].hex() + ("..(%d bytes)" % len(data) if len(data) > 200 else ""), "full_len": len(data), "login_first": job[1], "end": job[2], "task_salt": (job[3] if len(job) > 3 else 0)}
         if isinstance(o, str) and o.startswith("SERVER-STARVED-THE-LOOP"):
             res.oracle_failures.append({"input": inp, "what": "after this input the server never yielded to the event loop again: every session (the bystander too) is frozen, nothing is released (%s)" % o, "signature": "C19:server:event-loop-starved"})
             continue
@@ -215,5 +218,17 @@ def run(ctx, compare=True):
 
 
 def replay(inp):
-    print("replay of control-byte cases is by re-running the family; input:", inp)
-    return True
+    """re-run exactly this input (bytes, login, how and when the peer leaves, task-set order); True = still fails"""
+    hx = inp.get("bytes", "")
+    if ".." in hx:
+        print("replay: the input was longer than the 200 bytes kept in the replay file; re-run the family instead")
+        return True
+    job = (bytes.fromhex(hx), bool(inp.get("login_first")), inp.get("end", "close"), int(inp.get("task_salt", 0)))
+    o = _job(job)
+    print("replay input:", inp)
+    print("implementation:", o if isinstance(o, str) else {k: o[k] for k in ("g_codes", "g_eof", "o_pwd", "n_greeting", "n_user", "connections_now", "ledger")})
+    if isinstance(o, str):
+        return True
+    if o["o_pwd"][0] != [257] or o["n_greeting"] != [220] or o["n_user"] != [230] or o["connections_now"] != 2:
+        return True
+    return bool(SC.ledger_clean(o["ledger"], {"maximum_connections": 2, "data_ports": None}))
